@@ -296,6 +296,13 @@ def call_lib(I, name, args, kwargs, node):
                 vals.append(v)
             return vals[0] if len(vals) == 1 else TupS(vals)
         return Fn("py", impl=agetter, name="attrgetter")
+    if name in ("functools.lru_cache", "functools.cache"):
+        # within one evaluation a memoised function gives what the function gives (what a memo keeps BETWEEN opens is C10-W3's business)
+        if a and I.is_callable(a[0]) and not kwargs:
+            return a[0]
+        if name == "functools.lru_cache":
+            return Fn("lib", name="identity")
+        return Top("functools.cache()")
     if name == "curry" or name.endswith(".partial"):
         if not a:
             return Top("curry()")
